@@ -605,6 +605,8 @@ def jobs(tier, seed):
     out.append(Job("C07_noop", NOOP_SRC, [dict(name="noop " + k, fn=check_noop, kw=dict(k=k))
                                           for k in ("k_noop_copy_ptrarr", "k_noop_copy_intarr", "k_noop_store_ptrarr", "k_noop_copy_int43")]))
     out.append(Job("C07_BM_struct", '#include "C07_bm.inc"\n', [dict(name="BM " + k, fn=check_bm_struct, kw=dict(k=k)) for k in ("k_bm_store_struct", "k_bm_load_struct")], native=False))
+    from specs import C04
+    out.append(Job("C07_BM_hist", '#include "C04_bm.inc"\n', [dict(name="BM pointer cell store/load after create/destroy histories", fn=C04.check_bm, kw=dict(k="k_bm_store_load"))], unwind=200, native=False))
     out.append(Job("C07_BM_more", '#include "C07_bm2.inc"\n', [dict(name="BM " + k, fn=check_bm2, kw=dict(k=k)) for k in ("k_bm_store_nested", "k_bm_load_nested", "k_bm_store_fnptr", "k_bm_ctx_fnptrptr")], native=False))
     out.append(Job("C07_agg", C.PRELUDE + "using S = B32;\n" + AGG_SRC, [dict(name="B32 " + k, fn=check_agg, kw=dict(k=k)) for k in AGG]))
     return out
